@@ -35,22 +35,24 @@ where
     /// Create a new `Filter` with the given (unfiltered) initial values, stream
     /// of `VectorDiff` updates for those values, and filter.
     pub fn new(
-        mut values: Vector<VectorDiffContainerStreamElement<S>>,
+        values: Vector<VectorDiffContainerStreamElement<S>>,
         inner: S,
         filter: F,
     ) -> (Vector<VectorDiffContainerStreamElement<S>>, Self) {
         let original_len = values.len();
         let mut filtered_indices = VecDeque::new();
 
-        let mut original_idx = 0;
-        values.retain(|val| {
-            let keep = filter(val);
-            if keep {
+        // Not `Vector::retain`: as of imbl 5.0 it mixes up elements of vectors that
+        // consist of more than one chunk (it swaps through `FocusMut::pair`).
+        let values = values
+            .into_iter()
+            .enumerate()
+            .filter(|(_, val)| filter(val))
+            .map(|(original_idx, val)| {
                 filtered_indices.push_back(original_idx);
-            }
-            original_idx += 1;
-            keep
-        });
+                val
+            })
+            .collect();
 
         let inner = FilterImpl { inner, filtered_indices, original_len };
         (values, Self { inner, filter })
@@ -150,22 +152,24 @@ where
 {
     fn append_filter<F>(
         &mut self,
-        mut values: Vector<VectorDiffContainerStreamElement<S>>,
+        values: Vector<VectorDiffContainerStreamElement<S>>,
         f: &F,
     ) -> Option<Vector<VectorDiffContainerStreamElement<S>>>
     where
         F: Fn(&VectorDiffContainerStreamElement<S>) -> bool,
     {
-        let mut original_idx = *self.original_len;
+        let offset = *self.original_len;
         *self.original_len += values.len();
-        values.retain(|value| {
-            let keep = f(value);
-            if keep {
-                self.filtered_indices.push_back(original_idx);
-            }
-            original_idx += 1;
-            keep
-        });
+        // Not `Vector::retain`, see `Filter::new`.
+        let values: Vector<_> = values
+            .into_iter()
+            .enumerate()
+            .filter(|(_, value)| f(value))
+            .map(|(idx, value)| {
+                self.filtered_indices.push_back(offset + idx);
+                value
+            })
+            .collect();
 
         values.is_empty().not().then_some(values)
     }
